@@ -21,8 +21,10 @@ def plan(tier, seed):
         for r in range(7, top + 1):
             for f in range(12):
                 specs.append({'part': 'enum', 'levels': [r], 'faces': [f]})
-    for rc, b in ([(-1, 8), (0, 9), (2, 12)] if tier == 'quick' else [(-1, 9), (0, 9), (0, 10), (0, 11), (2, 12), (3, 14), (19, 29)]):
+    for rc, b in ([(-1, 8), (2, 12)] if tier == 'quick' else [(-1, 9), (0, 10), (0, 11), (2, 12), (3, 14), (19, 29)]):
         specs.append({'part': 'ladder', 'rc': rc, 'b': b})
+    for f0 in (0, 3, 6, 8):
+        specs.append({'part': 'ladder', 'rc': 0, 'b': 9, 'faces': [f0, f0 + 1, f0 + 2, f0 + 3]})
     nrand = 12 if tier == 'quick' else 150
     for f in range(12):
         specs.append({'part': 'structured', 'face': f, 'nrand': nrand})
@@ -120,17 +122,25 @@ def run_shard(spec, ctx):
         ctx.sample({'id': ids[len(ids) // 2], 'r': r, 'decoded': list(key_of(ser.deserialize(ids[len(ids) // 2])))})
     elif part == 'ladder':
         rc, b = spec['rc'], spec['b']
-        c = 0 if rc == -1 else gen.random_cell(ctx.rnd, a5, rc)
-        ids = a5.cell_to_children(c, b)
-        want = a5.get_num_cells(b) // (a5.get_num_cells(rc) if rc >= 0 else 1)
-        ctx.case(('ladder', c, b))
-        ctx.count('ladder_ids', len(ids))
-        if len(ids) != want or len(set(ids)) != want:
-            ctx.fail('enum_count', {'r': b, 'parent': c}, listed=len(ids), distinct=len(set(ids)), want=want)
-        step = max(1, len(ids) // 30000)
-        for i in ids[::step] + ids[-2:]:
-            check_id(i, b, ctx, ser, table, {'r': b, 'id': i, 'via': 'ladder'})
-        ctx.sample({'parent': c, 'r': b, 'ids': len(ids)})
+        parents = [a5.cell_to_children(0, 0)[f0] for f0 in spec['faces']] if spec.get('faces') else [0 if rc == -1 else gen.random_cell(ctx.rnd, a5, rc)]
+        union = set()
+        for c in parents:
+            ids = a5.cell_to_children(c, b)
+            want = a5.get_num_cells(b) // (a5.get_num_cells(rc) if rc >= 0 else 1)
+            ctx.case(('ladder', c, b))
+            ctx.count('ladder_ids', len(ids))
+            if len(ids) != want or len(set(ids)) != want:
+                ctx.fail('enum_count', {'r': b, 'parent': c}, listed=len(ids), distinct=len(set(ids)), want=want)
+            step = max(1, len(ids) // 30000)
+            for i in ids[::step] + ids[-2:]:
+                check_id(i, b, ctx, ser, table, {'r': b, 'id': i, 'via': 'ladder'})
+            if spec.get('faces'):
+                union.update(ids)
+            del ids
+        if spec.get('faces') and len(union) != want * len(parents):
+            # different cells must get different ids: the expansions of different faces may not overlap
+            ctx.fail('enum_count', {'r': b, 'faces': spec['faces']}, distinct=len(union), want=want * len(parents))
+        ctx.sample({'parent': c, 'r': b, 'ids': want})
     elif part == 'structured':
         f = spec['face']
         o = origins[f]
